@@ -45,7 +45,7 @@ Pinned(k, sl) ==
   \/ k = "int" /\ sl \in {<<1, 1, 10, 1, 1, 1>>, <<3, 2, 7, 1, 1, 1>>, <<1, 1, 21, 1, 1, 1>>}
 
 PickOp == /\ phase = "pick" /\ kind = "op"
-          /\ cls' \in Tuples(Inventory[idx].sig, Tier)
+          /\ cls' \in Tuples(Inventory[idx].sig, Tier) \cup ExtraTuples(Inventory[idx].op)
           /\ CellValid(Inventory[idx].sig, cls')
           /\ phase' = "done"
           /\ UNCHANGED <<kind, idx, slots>>
